@@ -210,6 +210,10 @@ CHECKS = {'C01': ('exploration',
 
 # additions of round 6, appended to the level text
 ROUND7 = {
+    "C01": "the not-allowed result of a rail action (None / 0 / empty string), 70-200 other conversations between two turns.",
+    "C02": "empty user messages and event-started turns as turn kinds.",
+    "C11": "non-finite floats in the state, open scopes that list an ended flow.",
+    "C16": "templated predefined messages, a spare bot message for selections without dialog and output.",
     "C04": "large numbers with neighbour mutations, long received strings around the 4096th character.",
     "C05": "competitors that wait with a group of event matches.",
     "C12": "Colang 1.0 value-generation statements in every block.",
